@@ -370,6 +370,8 @@ def judge(cases, impl, model, replay=False):
             cov["entries"][ek] = cov["entries"].get(ek, 0) + len(seg["loads"])
             fp1 = None
             grown = {}
+            first_obs = None
+            changed = False
             for n, ld in enumerate(seg["loads"]):
                 cov["loads"] += 1
                 lr = str(impl.get(ld["lid"]))
@@ -392,6 +394,23 @@ def judge(cases, impl, model, replay=False):
                         if fp.get(comp) != fp1.get(comp):
                             cov["observations_growth"][comp] = cov["observations_growth"].get(comp, 0) + 1
                 if ld["obs"] is not None:
+                    # the statement's own oracle: the answers after load k are those after load 1
+                    cur = {tag: impl_list(impl.get(qi)) for tag, qi in ld["obs"]}
+                    if first_obs is None:
+                        first_obs = cur
+                    else:
+                        for tag in cur:
+                            if cur[tag] != first_obs[tag] and not changed:
+                                changed = True
+                                k = int(tag[1:]) if tag[0] in "kc" else -1
+                                findings.append(core.Finding(
+                                    "violation",
+                                    {"family": "answers", "what": "changed-by-reload", "obs": tag[0],
+                                     "kind": (",".join(c["kinds"][k]) or "static") if k >= 0 else "-",
+                                     "mode": "file" if seg["fm"] else "nonfile", "entry": seg["entry"]},
+                                    "load %d of the same text (text %d, %s) changed the answers of %s: [%s] after load 1, [%s] now"
+                                    % (n + 1, seg["text"], ek, tag, first_obs[tag], cur[tag]), slim(case)))
+                                ok = False
                     want = run[oi].split(" ") if oi < len(run) else []
                     oi += 1
                     wm = {w.partition("=")[0]: w for w in want}
@@ -432,6 +451,8 @@ def judge(cases, impl, model, replay=False):
                                 % (n + 1, seg["text"], ek, got, exp, tag), slim(case)))
                             ok = False
             for comp, (n, a, b) in grown.items():
+                if changed and comp in ("skeleton_clauses", "skeleton_clause_locs", "local_clause_locs"):
+                    continue        # consequence of the changed answers reported above
                 findings.append(core.Finding(
                     "violation",
                     {"family": "footprint", "component": comp, "entry": seg["entry"],
